@@ -161,7 +161,7 @@ def parsePushOp? (s : String) : Option Push.Op :=
 def pushOutName : Push.Out → String
   | .getBlocks b s => s!"b({b},{s})" | .getHeaders b s => s!"h({b},{s})"
   | .addr n => s!"addr({n})" | .addrV2 n => s!"addrv2({n})"
-  | .reject c => s!"reject(tx/{c})" | .pong i => s!"pong({i})"
+  | .reject c => s!"reject(tx/{c}/9)" | .pong i => s!"pong({i})"
 
 def handlePush : List String → String
   | [ours, theirs, ops] =>
